@@ -131,3 +131,117 @@ pub fn alpha_plane(payload: &[u8], width: u16, height: u16, colour_fill: u8) -> 
 
     Ok(buf.chunks_exact(4).map(|p| p[3]).collect())
 }
+
+// ---------------------------------------------------------------------------------------------
+// VP8L (lossless) hooks
+
+use crate::decoder::DecodingError;
+use crate::huffman::HuffmanTree;
+use crate::lossless::{BitReader, LosslessDecoder};
+use std::io::{BufRead, Cursor};
+
+/// `LosslessDecoder::decode_frame` on a bare VP8L payload held in memory. `implicit` selects the
+/// headerless form used by ALPH payloads (dimensions supplied by the caller).
+pub fn vp8l_decode(
+    payload: &[u8],
+    width: u16,
+    height: u16,
+    implicit: bool,
+) -> Result<Vec<u8>, DecodingError> {
+    vp8l_decode_with(Cursor::new(payload), width, height, implicit)
+}
+
+/// `LosslessDecoder::decode_frame` reading from any `BufRead` (chunked-reader schedules).
+pub fn vp8l_decode_with<R: BufRead>(
+    reader: R,
+    width: u16,
+    height: u16,
+    implicit: bool,
+) -> Result<Vec<u8>, DecodingError> {
+    let mut buf = vec![0u8; usize::from(width) * usize::from(height) * 4];
+    LosslessDecoder::new(reader).decode_frame(
+        u32::from(width),
+        u32::from(height),
+        implicit,
+        &mut buf,
+    )?;
+    Ok(buf)
+}
+
+/// `LosslessDecoder::decode_frame` into a caller-prefilled buffer (the buffer is passed unchanged).
+pub fn vp8l_decode_into(
+    payload: &[u8],
+    width: u16,
+    height: u16,
+    implicit: bool,
+    buf: &mut [u8],
+) -> Result<(), DecodingError> {
+    LosslessDecoder::new(Cursor::new(payload)).decode_frame(
+        u32::from(width),
+        u32::from(height),
+        implicit,
+        buf,
+    )
+}
+
+/// `HuffmanTree::build_implicit(code_lengths)` then `count` times `fill(); read_symbol()` on a
+/// `BitReader` over `bits`.
+pub fn huffman_build_and_decode(
+    code_lengths: Vec<u16>,
+    bits: &[u8],
+    count: usize,
+) -> Result<Vec<u16>, ()> {
+    let tree = HuffmanTree::build_implicit(code_lengths).map_err(|_| ())?;
+    let mut reader = BitReader::verif_new(Cursor::new(bits));
+    let mut out = Vec::with_capacity(count);
+    for _ in 0..count {
+        reader.fill().map_err(|_| ())?;
+        out.push(tree.read_symbol(&mut reader).map_err(|_| ())?);
+    }
+    Ok(out)
+}
+
+/// `lossless_transform::apply_predictor_transform`
+pub fn apply_predictor_transform(
+    image_data: &mut [u8],
+    width: u16,
+    height: u16,
+    size_bits: u8,
+    predictor_data: &[u8],
+) -> Result<(), DecodingError> {
+    crate::lossless_transform::apply_predictor_transform(
+        image_data,
+        width,
+        height,
+        size_bits,
+        predictor_data,
+    )
+}
+
+/// `lossless_transform::apply_color_transform`
+pub fn apply_color_transform(
+    image_data: &mut [u8],
+    width: u16,
+    size_bits: u8,
+    transform_data: &[u8],
+) {
+    crate::lossless_transform::apply_color_transform(image_data, width, size_bits, transform_data)
+}
+
+/// `lossless_transform::apply_subtract_green_transform`
+pub fn apply_subtract_green_transform(image_data: &mut [u8]) {
+    crate::lossless_transform::apply_subtract_green_transform(image_data)
+}
+
+/// `lossless_transform::apply_color_indexing_transform`
+pub fn apply_color_indexing_transform(
+    image_data: &mut [u8],
+    width: u16,
+    height: u16,
+    table_size: u16,
+    table_data: &[u8],
+) {
+    crate::lossless_transform::apply_color_indexing_transform(
+        image_data, width, height, table_size, table_data,
+    )
+}
